@@ -53,6 +53,8 @@ pub struct Model {
     pub chain_cap: usize,
     pub gen: u32,
     pub policy: PolKind,
+    /// Post phase entered by a BufferLimit error in a scenario with strict_after_buffer_limit
+    pub strict: bool,
 }
 
 #[derive(Clone, Debug, Serialize, Deserialize)]
@@ -68,6 +70,12 @@ pub struct Scenario {
     pub policy_clauses: bool,
     /// continue exploring after a buffer-limit / I/O error (C06 regime)
     pub explore_post: bool,
+    /// C09: after a BufferLimit error the stream must go on undisturbed (e.g. once a more generous
+    /// policy is installed): only genuine records not before the cursor, in order; errors only
+    /// BufferLimit (iff refusal) or the input's own terminal error; end of input only after the
+    /// last record
+    #[serde(default)]
+    pub strict_after_buffer_limit: bool,
 }
 
 #[derive(Clone, Debug)]
@@ -148,6 +156,7 @@ impl<'a> Runner<'a> {
                 chain_cap: sc.env.cap,
                 gen: 0,
                 policy: sc.env.policy,
+                strict: false,
             },
             grow_seen: 0,
             log: vec![],
@@ -176,8 +185,8 @@ impl<'a> Runner<'a> {
         // `gen` (identity of the policy instance) and `chain_cap` (= capacity, part of the snapshot)
         // are bookkeeping of the oracle, not state the reader can observe
         let harness = format!(
-            "{}|{:?}|{:?}|{}|{:?}|src={}|fired={:?}|rd={}",
-            self.m.cur, self.m.phase, self.m.post_last, self.m.had_exact, self.m.policy,
+            "{}|{:?}|{:?}|{}|{}|{:?}|src={}|fired={:?}|rd={}",
+            self.m.cur, self.m.phase, self.m.post_last, self.m.had_exact, self.m.strict, self.m.policy,
             sh.pos.get(),
             sh.fault_fired.get().is_some(),
             match self.sc.env.int {
@@ -230,7 +239,10 @@ impl<'a> Runner<'a> {
 
     /// Post regime: `got` must be a record of the input later than everything handed out since
     fn post_member(&mut self, got: &RecObs, owned: bool, what: &str) -> Result<(), Viol> {
-        let from = self.m.post_last.map_or(0, |l| l + 1);
+        let mut from = self.m.post_last.map_or(0, |l| l + 1);
+        if self.m.strict {
+            from = from.max(self.m.cur.min(self.n()));
+        }
         for i in from..self.n() {
             if self.rec_eq(got, i, owned) {
                 self.m.post_last = Some(i);
@@ -307,7 +319,7 @@ impl<'a> Runner<'a> {
             if cap != self.m.chain_cap {
                 return viol("grow-chain", format!("{:?}: capacity is {} but the policy directed {}", op, cap, self.m.chain_cap));
             }
-            if item_is_buflimit != refused && self.m.phase != Phase::Post {
+            if item_is_buflimit != refused && (self.m.phase != Phase::Post || self.m.strict) {
                 return viol(
                     "bufferlimit-iff-refusal",
                     format!("{:?}: BufferLimit returned = {}, policy refused during the call = {}", op, item_is_buflimit, refused),
@@ -381,6 +393,7 @@ impl<'a> Runner<'a> {
                         self.m.phase = Phase::Normal;
                         self.m.cur = i;
                         self.m.post_last = None;
+                        self.m.strict = false;
                         Ok(())
                     }
                     Err(Item::Err(e)) => match (&e.kind, io) {
@@ -431,8 +444,11 @@ impl<'a> Runner<'a> {
                 }
                 self.check_policy_after(op, first, 0, buflimit)?;
                 if buflimit {
+                    if self.m.phase != Phase::Post {
+                        self.m.strict = self.sc.strict_after_buffer_limit && self.m.phase == Phase::Normal;
+                        self.m.post_last = None;
+                    }
                     self.m.phase = Phase::Post;
-                    self.m.post_last = None;
                     return Ok(());
                 }
                 match self.m.phase {
@@ -479,6 +495,8 @@ impl<'a> Runner<'a> {
                     },
                     Phase::Post => match it {
                         Item::Rec(r) => self.post_member(&r, owned, &format!("{:?}", op)),
+                        Item::Err(e) if self.m.strict => self.strict_err(op, &e),
+                        Item::End if self.m.strict => self.strict_end(op),
                         _ => Ok(()),
                     },
                 }
@@ -527,8 +545,11 @@ impl<'a> Runner<'a> {
                 let delivered = if let SetRes::Ok(v) = &res { v.len() } else { 0 };
                 self.check_policy_after(op, first, delivered, buflimit)?;
                 if buflimit {
+                    if self.m.phase != Phase::Post {
+                        self.m.strict = self.sc.strict_after_buffer_limit && self.m.phase == Phase::Normal;
+                        self.m.post_last = None;
+                    }
                     self.m.phase = Phase::Post;
-                    self.m.post_last = None;
                     return self.iterate_after_failure(op, which);
                 }
                 match self.m.phase {
@@ -612,12 +633,45 @@ impl<'a> Runner<'a> {
                             }
                             Ok(())
                         }
-                        SetRes::Err(_) => self.iterate_after_failure(op, which),
+                        SetRes::Err(e) => {
+                            if self.m.strict {
+                                self.strict_err(op, &e)?;
+                            }
+                            self.iterate_after_failure(op, which)
+                        }
+                        SetRes::End if self.m.strict => self.strict_end(op),
                         _ => Ok(()),
                     },
                 }
             }
         }
+    }
+
+    /// index of the first record that may still be delivered in the strict post-BufferLimit regime
+    fn strict_next(&self) -> usize {
+        self.m.post_last.map_or(self.m.cur.min(self.n()), |l| l + 1)
+    }
+
+    fn strict_err(&mut self, op: Op, e: &ErrObs) -> Result<(), Viol> {
+        if e.kind == ErrKind::BufferLimit {
+            return Ok(()); // iff-refusal is checked by check_policy_after
+        }
+        if self.is_pending_err(e).is_ok() {
+            // the input's own invalid record: everything before it may have been skipped only by
+            // aborted batches, never by single reads
+            self.m.phase = Phase::Ended;
+            self.m.strict = false;
+            return Ok(());
+        }
+        viol("stream-disturbed", format!("{:?}: after a BufferLimit error the reader reports {} although the input is valid from record {} on", op, e.show(), self.strict_next()))
+    }
+
+    fn strict_end(&mut self, op: Op) -> Result<(), Viol> {
+        if self.strict_next() < self.n() && !matches!(op, Op::E(_)) && !self.m.had_exact {
+            // (after aborted exact-count batches an unknown number of records was dropped)
+            return viol("stream-disturbed", format!("{:?}: end of input after a BufferLimit error although record {} was never delivered", op, self.strict_next()));
+        }
+        Ok(())
     }
 
     /// C06: a record set handed to a failed read may be iterated; it must yield nothing or genuine records
